@@ -125,6 +125,17 @@ def main(argv):
         if cfg.get('pyflags'):
             r.counters['python_optimize_flag_seen'] += int(
                 sys.flags.optimize > 0)
+    try:
+        from vmon.checks import common as _c
+        r.counters['marshals_judged_after_lookalike_frames'] += _c.LOOKALIKES[1]
+        r.counters['marshals_judged_after_other_use_of_same_object'] += \
+            _c.PRIOR_USE[0]
+        r.counters['decimal_frames_rerun_under_caller_contexts'] += \
+            _c.CALLER_CONTEXTS[0]
+        r.counters['decimal_frames_differing_under_caller_contexts'] += \
+            _c.CALLER_CONTEXTS[1]
+    except Exception:
+        pass
     tot = sysmon.totals()
     r.counters['lib_calls_total'] += tot['calls']
     r.counters['lib_backjumps_total'] += tot['jumps']
